@@ -283,7 +283,7 @@ def spec_from_json(d):
     return s
 
 
-COSTS = [(0, 1, 1, 1, 1), (1, 2, INF, 1, 0)]
+COSTS = [(0, 1, 1, 1, 1), (1, 2, INF, 1, 0), (3, 0, 0, 0, 2)]   # the last one: explicit zeros where the defaults are 1
 
 
 def plan(tier, seed):
@@ -346,7 +346,7 @@ def run_shard(shard, tier, seed):
                 for fam, leafsyn in (("plain", None), ("ordered", {v: ("a", "b")[: 1 + i % 2] for i, v in enumerate(O.leaves)}),
                                      ("unordered", {v: ("a", "b")[i % 2:] for i, v in enumerate(O.leaves)})):
                     run({"source": "input", "family": fam, "osh": osh, "ssh": ssh, "leafmap": leafmap, "leafsyn": leafsyn,
-                         "naming": schemes[(ai + ci) % len(schemes)], "ofeats": ofe, "sfeats": sfe, "costs": COSTS[ci % 2]})
+                         "naming": schemes[(ai + ci) % len(schemes)], "ofeats": ofe, "sfeats": sfe, "costs": COSTS[ci % 3]})
         return {"evaluations": n_eval, "nontrivial": nt, "samples": samples, "violations": viols, "violations_total": vtotal,
                 "counters": counters}
     colours = colour_menu(O, S, shard["full_colours"])
@@ -371,7 +371,7 @@ def run_shard(shard, tier, seed):
                     for ci, (ofe, sfe) in enumerate(colours[:6] if leafsyn is not None else colours[:16]):
                         naming = schemes[ci % len(schemes)]
                         run({"source": "solver", "algorithm": algo, "family": fam, "osh": osh, "ssh": ssh, "leafmap": leafmap,
-                             "leafsyn": leafsyn, "naming": naming, "ofeats": ofe, "sfeats": sfe, "costs": COSTS[ci % 2]})
+                             "leafsyn": leafsyn, "naming": naming, "ofeats": ofe, "sfeats": sfe, "costs": COSTS[ci % 3]})
     elif mode == "model-plain":
         part = shard["part"]
         for i, leafmap in enumerate(spaces.assignments(O, S)):
@@ -381,7 +381,7 @@ def run_shard(shard, tier, seed):
                 for ci, (ofe, sfe) in enumerate(colours):
                     for naming in (schemes if ci < 2 else [schemes[ci % len(schemes)]]):
                         run({"source": "model", "family": "plain", "osh": osh, "ssh": ssh, "leafmap": leafmap, "mapping": m,
-                             "naming": naming, "ofeats": ofe, "sfeats": sfe, "costs": COSTS[ci % 2]})
+                             "naming": naming, "ofeats": ofe, "sfeats": sfe, "costs": COSTS[ci % 3]})
     else:
         for leafmap, leafsyn in L.labelled_inputs(O, S, shard["menu"], shard.get("part")):
             maps = [m for m, _ in dtl.valid_mappings(O, S, leafmap)]
@@ -402,10 +402,10 @@ def run_shard(shard, tier, seed):
                 for m in maps:
                     for lab in ulabs:
                         run({"source": "model", "family": "unordered", "osh": osh, "ssh": ssh, "leafmap": leafmap, "leafsyn": leafsyn,
-                             "mapping": m, "labelling": lab, "naming": naming, "ofeats": ofe, "sfeats": sfe, "costs": COSTS[ci % 2]})
+                             "mapping": m, "labelling": lab, "naming": naming, "ofeats": ofe, "sfeats": sfe, "costs": COSTS[ci % 3]})
                     for lab in olabs:
                         run({"source": "model", "family": "ordered", "osh": osh, "ssh": ssh, "leafmap": leafmap, "leafsyn": leafsyn,
-                             "mapping": m, "labelling": lab, "naming": naming, "ofeats": ofe, "sfeats": sfe, "costs": COSTS[ci % 2]})
+                             "mapping": m, "labelling": lab, "naming": naming, "ofeats": ofe, "sfeats": sfe, "costs": COSTS[ci % 3]})
     return {"evaluations": n_eval, "nontrivial": nt, "samples": samples, "violations": viols, "violations_total": vtotal,
             "counters": counters}
 
